@@ -27,7 +27,7 @@ theorem rhs_lt (hg : GW g) (hw : FsWf g fs) {p : Nat} {pr : Prod} (hp : g.prods[
   rw [hw.size]
   exact ((hg.prod_ok p pr hp).2.2 X hX).2.1
 
-theorem mem_prods (hg : GW g) {pr : Prod} (h : pr ∈ g.prods.toList) : ∃ p : Nat, g.prods[p]? = some pr := by
+theorem mem_prods (_hg : GW g) {pr : Prod} (h : pr ∈ g.prods.toList) : ∃ p : Nat, g.prods[p]? = some pr := by
   obtain ⟨i, hi, hget⟩ := List.getElem_of_mem h
   simp only [Array.length_toList] at hi
   refine ⟨i, ?_⟩
